@@ -199,13 +199,45 @@ fn oracle_random(case: &[u8], obs: &mut Obs) -> Result<(), String> {
     check(&buf[lead..], off, obs)
 }
 
+/// A table of 2^32 + 64 bytes (zero pages, mapped lazily) with strings laid out around byte 2^32.
+fn big_table() -> &'static [u8] {
+    static B: std::sync::OnceLock<Vec<u8>> = std::sync::OnceLock::new();
+    B.get_or_init(|| {
+        let mut v = vec![0u8; (1usize << 32) + 64];
+        let base = (1usize << 32) - 32;
+        for i in 0..96 {
+            v[base + i] = if i % 7 == 6 { 0 } else if i % 11 == 3 { 0xC3 } else if i % 11 == 4 { 0xA9 } else { b'a' + (i % 26) as u8 };
+        }
+        v
+    })
+}
+
+/// plain encoding: [delta] with offset = 2^32 - 40 + delta
+fn oracle_big(case: &[u8], obs: &mut Obs) -> Result<(), String> {
+    if case.is_empty() {
+        return Ok(());
+    }
+    check(big_table(), (1usize << 32) - 40 + case[0] as usize, obs)
+}
+
+fn enum_big(shard: usize, _n: usize, _t: Tier, emit: &mut dyn FnMut(&[u8]) -> bool) {
+    if shard != 0 {
+        return;
+    }
+    for delta in 0..110u8 {
+        if !emit(&[delta]) {
+            return;
+        }
+    }
+}
+
 pub fn property() -> Property {
     Property {
         id: "C15",
         level: "exploration",
-        rule: "cases are (table bytes, offset); oracle = NUL-scan reference: inside the table with a NUL after it -> Ok(exact sub-slice starting at table+offset), otherwise Err of kind BadOffset or StringTableMissingNul; get = from_utf8(get_raw) or Err. small: exhaustive over every table of length 0..7 over the alphabet {NUL,'a',0xC3,0xA9} and every offset 0..len+2. random: proptest choice sequences, tables up to 4 KiB with varying NUL density and alphabets rich in 0x01/0x7f/0x80/0xff or valid UTF-8 text of 1..4-byte characters with few NULs (4% of the tables: 4..200 KiB with a handful of NULs, i.e. NUL-free runs of 4 096, 65 535, 65 536+ bytes), offsets incl. len-1, len, len+1, k*2^32+i, boundary values and usize::MAX; the table starts at every address residue modulo 8 (small) / a chosen residue modulo 16 (random). Non-trivial: lookup at a non-zero offset that succeeds, or any failing lookup; distinct by case hash.",
+        rule: "cases are (table bytes, offset); oracle = NUL-scan reference: inside the table with a NUL after it -> Ok(exact sub-slice starting at table+offset), otherwise Err of kind BadOffset or StringTableMissingNul; get = from_utf8(get_raw) or Err. small: exhaustive over every table of length 0..7 over the alphabet {NUL,'a',0xC3,0xA9} and every offset 0..len+2. random: proptest choice sequences, tables up to 4 KiB with varying NUL density and alphabets rich in 0x01/0x7f/0x80/0xff or valid UTF-8 text of 1..4-byte characters with few NULs (4% of the tables: 4..200 KiB with a handful of NULs, i.e. NUL-free runs of 4 096, 65 535, 65 536+ bytes), offsets incl. len-1, len, len+1, k*2^32+i, boundary values and usize::MAX; the table starts at every address residue modulo 8 (small) / a chosen residue modulo 16 (random). beyond_4gib: a 2^32+64 byte table (lazily mapped zero pages) with strings laid out around byte 2^32, every offset 2^32-40 .. 2^32+69. Non-trivial: lookup at a non-zero offset that succeeds, or any failing lookup; distinct by case hash.",
         assumptions: &["error kinds are only required to be one of the two the statement names, not a particular one per situation"],
-        subs: vec![Sub::enumerated("small", oracle_small, enum_small, true), Sub::new("random", oracle_random, 128, 3_000_000, 40_000_000)],
+        subs: vec![Sub::enumerated("small", oracle_small, enum_small, true), Sub::new("random", oracle_random, 128, 3_000_000, 40_000_000), Sub::enumerated("beyond_4gib", oracle_big, enum_big, false)],
         extras: vec![crate::fuzz::c15_choice],
     }
 }
